@@ -39,7 +39,7 @@ CLAIMED = {
         "DESIGN.md §5 C16",
     ),
     "C13": (
-        ["Expander", "Gen_Expander"],
+        ["Expander", "Gen_Expander", "Gen_ExpanderRep"],
         "same expander twin; TLC enumerates pages x need_pre_expand sets x templates_to_expand/not_expand subsets x switches x hook policies, checks 'nothing selected => unchanged' and hook-count laws; "
         "each case replayed on the real expand() comparing the returned text and the exact hook call sequence",
         "Bounded-exhaustive over selections and hook policies (65k cases quick, 200k thorough): real output and the arguments the hooks receive must equal the twin's prediction.",
@@ -106,7 +106,8 @@ CLAIMED = {
         "DESIGN.md §5 C15",
     ),
     "C09": (
-        ["Context", "Gen_Context", "Trace_Context"],
+        ["Context", "Gen_Context", "Trace_Context", "ContextInvoke", "Gen_ContextInvoke", "Trace_ContextInvoke"],
+        "ContextInvoke models the invocations inside one page (environment stack, package.loaded instances, failing and nested invocations; reference: every top-level invocation gives what it gives alone on a fresh context), TLC-generated invocation histories run on one page of a real context in three renderings, recorded random histories validated by TLC; "
         "TLA+ model of every retained cell of the context (scope, reset point) and page kinds as readers/writers; TLC checks non-interference over all histories and emits every history with the cells the as-is model says interfere; "
         "each history run on one real context vs fresh contexts (separate processes), comparing trees, expansions and messages; random long histories attributed by a TLC trace spec",
         "Bounded-exhaustive over histories of 17-18 page kinds (<=2 quick, <=3 thorough; model: <=4) plus random histories up to 30 pages; differences are reported unless the as-is model explains them by a listed finding.",
